@@ -33,7 +33,9 @@ type faultSpec struct {
 }
 
 type stepSpec struct {
-	Kind   string     `json:"kind"` // start (new process) | retry (same process asks again) | rename
+	// start (new process) | retry (same process asks again) | rename |
+	// redeploy (IAppStructsProvider.New with another definition on the running process's provider)
+	Kind   string     `json:"kind"`
 	Schema *schema    `json:"schema,omitempty"`
 	Fault  *faultSpec `json:"fault,omitempty"`
 	Old    string     `json:"old,omitempty"`
@@ -435,11 +437,17 @@ func run(sc *scenario) (coq string, tags []string, err error) {
 			}
 		default:
 			retry := s.Kind == "retry"
-			if retry && proc == nil {
-				return "", nil, fmt.Errorf("retry without a process")
+			if retry && (proc == nil || proc.fixed != nil) {
+				return "", nil, fmt.Errorf("retry without a process (or after a redeployment)")
 			}
 			var e error
-			if retry {
+			if s.Kind == "redeploy" {
+				// to the model a redeployment is a start with fresh registry objects (AStart)
+				if proc == nil {
+					return "", nil, fmt.Errorf("redeploy without a running provider")
+				}
+				proc, e = redeploy(proc, *s.Schema)
+			} else if retry {
 				// the definition may only change while the configuration is not prepared yet
 				if s.Schema != nil && !proc.ready {
 					e = proc.grow(*s.Schema)
@@ -664,7 +672,7 @@ func nontrivial(sc *scenario) bool {
 		if s.Kind == "retry" {
 			starts++
 		}
-		if s.Kind == "start" {
+		if s.Kind == "start" || s.Kind == "redeploy" {
 			starts++
 			cur := map[string]bool{}
 			for _, d := range s.Schema.Docs {
